@@ -86,6 +86,11 @@ async def run_seq(tab, ops):
                     _Coord.endpoints[n + 1] = _Ep(groups)
                 await mc.startup(_Coord())
                 res = "OK"
+            elif op[0] == "P":
+                # several subscribe calls in flight at the same time (two add-to-group requests): each claims its own index
+                ez.next_answer = "o"
+                sts = await asyncio.gather(*(mc.subscribe(g) for g in op[1]))
+                res = "OK" if all(_res(x) == "OK" for x in sts) else "ST?"
             elif op[0] == "S":
                 ez.next_answer = op[2]
                 st = await mc.subscribe(op[1])
@@ -123,6 +128,17 @@ def driver_line(tab, recs):
         r["nmodel"] = 1
         if op[0] == "I":
             ops.append("I")
+        elif op[0] == "P":
+            # concurrent subscribes are, for the table, the same subscribes one after the other (each with the index it
+            # actually wrote); groups already subscribed, or left without a free index, write nothing
+            ws = list(r["writes"])
+            r["nmodel"] = 0
+            for g in op[1]:
+                w_ = next((x for x in ws if x[1] == g), None)
+                if w_ is not None:
+                    ws.remove(w_)
+                ops.append(f"S/{g}/{w_[0] if w_ else 0}/o")
+                r["nmodel"] += 1
         elif op[0] == "T":
             # the model's start-up is the scan followed by one subscribe per group in endpoint order; the index each
             # write went to is the element `pop()` happened to pick: it is read off the implementation's writes, in order
@@ -186,7 +202,7 @@ def oracle(tab0, recs):
         if op[0] in "SU" and r["res"] != "OK" and len(av) != len(avb):
             kind = "leak-subscribe-timeout" if (op[0] == "S" and op[2] == "t") else "failed-call-free-count"
             return k, kind, f"failing {op} changed the number of free indices {len(avb)} -> {len(av)}"
-        if r["nwrites"] > 1 and op[0] != "T":
+        if r["nwrites"] > 1 and op[0] not in "TP":
             return k, "writes", f"{op} wrote {r['nwrites']} table entries"
     return None
 
@@ -244,6 +260,16 @@ def run(ctx, depth=None, budget=None):
             for mem in memberships:
                 cases.append((tab, (("T", mem),)))
                 cases.append((tab, (("T", mem), ("U", G[0], "o"), ("S", G[0], "o"))))
+    # subscribes in flight at the same time
+    for size in range(0, 5):
+        tabs = list(initial_tables(size))
+        ctx.rng.shuffle(tabs)
+        for tab in tabs[: ctx.n(8, 40)]:
+            # (distinct groups only: two calls for the *same* group in flight together both pass the "already subscribed"
+            # test and program it twice - observed on the unchanged code, but the property speaks of sequences of calls)
+            for gs in ((G[0], G[1]), (G[1], G[0], G[2]), (G[2], G[0])):
+                cases.append((tab, (("I",), ("P", gs))))
+                cases.append((tab, (("I",), ("P", gs), ("U", G[0], "o"), ("S", G[2], "o"))))
     if budget and len(cases) > budget:
         cases = cases[:budget]
 
@@ -264,14 +290,14 @@ def run(ctx, depth=None, budget=None):
         if bad:
             k, kind, msg = bad
             ctx.violation(msg, {"kind": kind}, {"table": tab, "ops": [list(o) for o in seq[: k + 1]]})
-        if model is not None and any(r["op"][0] == "T" for r in recs):
+        if model is not None and any(r["op"][0] in "TP" for r in recs):
             # a start-up call spans several model steps: compare the state after it (and every other call in full)
             ments = model[idx].split(" ")
             pos = 0
             for r, mine in zip(recs, impl_line(recs).split(" ")):
                 pos += r["nmodel"]
                 ment = ments[pos - 1] if pos - 1 < len(ments) else "?"
-                if (mine.split("|")[2:] != ment.split("|")[2:]) if r["op"][0] == "T" else (mine != ment):
+                if (mine.split("|")[2:] != ment.split("|")[2:]) if r["op"][0] in "TP" else (mine != ment):
                     ctx.corr_diff("multicast trace differs from the model (start-up)", {"table": tab, "ops": [list(map(str, o)) for o in seq]}, mine, ment)
                     break
         elif model is not None:
@@ -283,7 +309,7 @@ def run(ctx, depth=None, budget=None):
     ctx.cov["distinct_nontrivial"] = nontrivial
     ctx.cov["rule"] = (f"groups {GROUPS}, table sizes 0..4, initial tables with each group at most once, programmed with endpoint 1, 2 or 242 (all for sizes 0..2, a seeded sample for 3..4), "
                        f"start-up followed by every sequence of length ≤ {depth} over {{start-up, subscribe g, unsubscribe g}} × answers {{success, rejection, timeout}} "
-                       "plus seeded random longer histories; start-up proper (table scan + the groups of the coordinator's endpoints, a group listed by one or several endpoints);  non-trivial = contains a failing table write; sequences are distinct by construction")
+                       "plus seeded random longer histories; start-up proper (table scan + the groups of the coordinator's endpoints, a group listed by one or several endpoints); two or three subscribe calls in flight at the same time;  non-trivial = contains a failing table write; sequences are distinct by construction")
     ctx.exhaustive = True
 
 
